@@ -133,6 +133,13 @@ CLAIMED = {
             "Bounds: j 1..4, ints |v|<=3, iterations 1..2(3); NOT covered: schedules in which the second workload is suspended while the first continues (needs coroutines - e.g. a shared context *stack* "
             "is invisible to nested schedules), preemption inside library functions, races on _Cell.ctr.",
             "DESIGN.md 4/C07"),
+    "C11": ("model_checking",
+            "astz3 (vf/kengine): the real code objects of the address arithmetic (_union_instersection, __contains__, size, inc_col/inc_row/address_at_offset, r1c1_boundaries) on records with z3 integer coordinates over the whole sheet",
+            "Intersection = exactly the common cells (pointwise for an arbitrary cell), #NULL! iff disjoint, union = minimal bounding rectangle, commutativity/idempotence (with and without a sheet on either operand), "
+            "associativity on triples, contains/size, offset wrap-around and relative R1C1 offsets from any anchor are decided over the full coordinate space in linear integer arithmetic.",
+            "The address constructors are replaced by coordinate records. The text round trip (print/parse, quoted sheet names, $ forms, A1/tuple/R1C1 agreement) has no symbolic path (openpyxl regexes, 18 278-entry letter tables): "
+            "it is covered only by concrete fixture self-checks at boundary columns/rows x a sheet-name pool, reported separately.",
+            "DESIGN.md 4/C11"),
 }
 
 NOT_YET = "check not built yet in this round (machinery under construction); see DESIGN.md section 4"
